@@ -22,7 +22,7 @@ func init() {
 		Rule: "every program of the template alphabet x every order of its top-level definitions (macro definitions stay before their users) x every mode " +
 			"{each form read+eval; whole text read, eval; whole text Compile, eval; each form Compile, eval; load; load twice; same main Code evaluated 5x (plain / compiled / mixed); " +
 			"whole Code evaluated 3x (plain / compiled); redefine one definition, re-evaluate the same and a fresh main, restore (plain / compiled); main evaluated before any and after " +
-			"every definition (plain / compiled)}; value and (tr ..) trace of every evaluation of main are compared with an independent late-binding reference evaluator; " +
+			"every definition (plain / compiled; not for programs with mutable state or macros)}; value and (tr ..) trace of every evaluation of main are compared with an independent late-binding reference evaluator; " +
 			"a case is non-trivial when a call site or function designator was defined or compiled before its target existed, or when the mode evaluates a Code object more than once, " +
 			"compiles it, or redefines a function",
 		Assumptions: []string{
@@ -30,7 +30,9 @@ func init() {
 			"Code.Compile evaluating top-level defun/defvar/defmacro before the other top-level forms is documented (docs/features.md, Read and Eval) and modelled, not reported",
 			"macro definitions always precede the code that uses them (Common Lisp leaves the other order undefined; the statement speaks of functions)",
 			"what an evaluation returns or signals while a callee is still missing is not constrained (only Go faults are reported); the value of a definition form is not constrained",
-			"definition forms have no side effects except a traced defvar initial value",
+			"definition forms have no side effects except a traced defvar/defparameter initial value, which must be evaluated exactly as often as the definition form is (once, or never when a defvar is already bound)",
+			"a redefined macro is expected to be seen by functions defined earlier (slip expands at every call; holds on the unchanged tree)",
+			"(funcall f) with no further argument is not generated (slip rejects it: C04's finding)",
 		},
 		Enumerate: enumerate,
 		Exec:      exec,
